@@ -772,11 +772,11 @@ func (in *Interp) slice(instr *ssa.Slice, x, lo, hi, max Value) Value {
 	}
 	l := tc.BV(64, 0)
 	if lo != nil {
-		l = in.simp(in.as64(lo.(*Term)))
+		l = in.simp(in.as64u(lo.(*Term), instr.Low.Type()))
 	}
 	var h *Term
 	if hi != nil {
-		h = in.simp(in.as64(hi.(*Term)))
+		h = in.simp(in.as64u(hi.(*Term), instr.High.Type()))
 	} else {
 		h = tc.BV(64, uint64(ln))
 	}
@@ -831,6 +831,13 @@ func (in *Interp) slice(instr *ssa.Slice, x, lo, hi, max Value) Value {
 
 // as64 widens an index term to 64 bits (signed source assumed non-negative is
 // checked by callers through unsigned comparison).
+func (in *Interp) as64u(t *Term, ty types.Type) *Term {
+	if t.w > 0 && t.w < 64 && ty != nil && !isSigned(ty) {
+		return in.tc.ZExt(t, 64)
+	}
+	return in.as64(t)
+}
+
 func (in *Interp) as64(t *Term) *Term {
 	if t.w == WInt {
 		if t.IsConst() {
@@ -858,7 +865,7 @@ func (in *Interp) indexAddr(x Value, idx *Term, instr *ssa.IndexAddr) Value {
 	default:
 		in.unsupported("IndexAddr on %T", x)
 	}
-	i64 := in.simp(in.as64(idx))
+	i64 := in.simp(in.as64u(idx, instr.Index.Type()))
 	if i64.IsConst() {
 		i := int64(i64.k)
 		if i < 0 || i >= int64(len(cells)) {
@@ -904,7 +911,11 @@ func scalarish(v Value) bool {
 
 func (in *Interp) index(x Value, idx *Term, instr *ssa.Index) Value {
 	tc := in.tc
-	i64 := in.simp(in.as64(idx))
+	var ity types.Type
+	if instr != nil {
+		ity = instr.Index.Type()
+	}
+	i64 := in.simp(in.as64u(idx, ity))
 	switch x := x.(type) {
 	case Array:
 		if i64.IsConst() {
@@ -978,7 +989,11 @@ func (in *Interp) lookup(instr *ssa.Lookup, x, key Value) Value {
 		}
 		return v
 	case *StrV:
-		return in.index(x, key.(*Term), nil)
+		kt := key.(*Term)
+		if kt.w > 0 && kt.w < 64 && !isSigned(instr.Index.Type()) {
+			kt = in.tc.ZExt(kt, 64)
+		}
+		return in.index(x, kt, nil)
 	}
 	in.unsupported("lookup on %T", x)
 	return nil
